@@ -207,7 +207,38 @@ def buffer_views(ctx, rep, rule: str, classes: list[str]) -> None:
         rep.ob(rule, f"views:{ci.name}:local-buffer-is-own-split", ok, cdb.loc(), "`_local_dist_buffer` must be the split of the gather buffer indexed by this rank's rank in the communication group")
 
 
+def alignment_arithmetic(ctx, rep, rule: str, classes: list[str]) -> None:
+    """The aligned size expression, interpreted on a complete residue system: smallest multiple of the alignment >= size."""
+    from ..guards import Interp, Unsupported
+
+    repo = ctx.repo
+    for cq in classes:
+        ci = repo.cls(cq)
+        fi = ci.methods["_distribute_buffer_sizes"]
+        consts = [n for n in A.walk_no_nested(fi.node) if isinstance(n, ast.Assign) and isinstance(n.targets[0], ast.Name) and isinstance(n.value, ast.Constant) and isinstance(n.value.value, int)]
+        comps = [n for n in A.walk_no_nested(fi.node) if isinstance(n, ast.Assign) and isinstance(n.value, ast.ListComp) and len(n.value.generators) == 1 and _norm(n.value.generators[0].iter) == fi.params[1]]
+        ok = len(consts) == 1 and len(comps) == 1
+        detail = f"{len(consts)} integer constant(s), {len(comps)} per-size list comprehension(s)"
+        if ok:
+            aname, aval = consts[0].targets[0].id, consts[0].value.value
+            var = comps[0].value.generators[0].target.id
+            bad = []
+            try:
+                for sz in range(0, 4 * aval + 2):
+                    got = Interp({var: sz, aname: aval}).ev(comps[0].value.elt)
+                    want = -(-sz // aval) * aval
+                    if got != want:
+                        bad.append((sz, got, want))
+            except Unsupported as u:
+                raise AnalysisError(f"{rule}: aligned-size expression outside the integer sub-language: {u}") from u
+            ok = not bad and aval == 64
+            detail = f"`{_norm(comps[0].value.elt)}` with {aname} = {aval}, evaluated for sizes 0..{4 * aval + 1} (a complete residue system, the expression is 64-periodic up to +64): smallest multiple of 64 that is >= size" + (f"; differs at size {bad[0][0]}: {bad[0][1]} vs {bad[0][2]}" if bad else "")
+        rep.ob(rule, f"alignment:{ci.name}", ok, fi.loc(), detail, sample=True)
+
+
 def run(ctx, rep) -> None:
+    rep.rule("C14.5", "aligned buffer size = smallest multiple of 64 that is >= the block's byte size (complete residue system)")
+    rep.attempt("alignment_arithmetic", alignment_arithmetic, ctx, rep, "C14.5", COPIES)
     rep.rule("C14.1", "the assignment is a deterministic function of global block sizes and group size (stable largest-first, heap of (load, rank), consistent load bookkeeping)")
     rep.rule("C14.2", "state lives only on the owner: selector = assigned rank == rank in the communication group; owners come from the assignment; allocation iterates local lists")
     rep.rule("C14.3", "the DDP / HSDP / HybridShard copies of the assignment and buffer code agree")
